@@ -4,7 +4,8 @@ usage: verify_seed.py <ID> <k> <crate> <demo_file>[,<demo_file2>:<crate2>] <chec
 Writes /verif/seeded/<ID>-<k>/{patch.diff,demo/,meta.json}."""
 import json, os, shutil, subprocess, sys, time
 ID, k, crate, demos, checks = sys.argv[1:6]
-extra = [a for a in sys.argv[6:] if a not in ("--no-checks", "--checks-only")]
+extra = [a for a in sys.argv[6:] if a not in ("--no-checks", "--checks-only", "--quick-only")]
+TIERS = ["quick"] if "--quick-only" in sys.argv else ["quick", "thorough"]
 NO_CHECKS = "--no-checks" in sys.argv
 CHECKS_ONLY = "--checks-only" in sys.argv
 wt = f"/tmp/seed/{ID}"
@@ -58,7 +59,7 @@ if not NO_CHECKS:
     meta["applies_to_repo_head"] = (rc == 0)
 if rc == 0:
     for c in checks.split(","):
-        for tier in ["quick", "thorough"]:
+        for tier in TIERS:
             t0 = time.time()
             p = subprocess.run(f"./check {c} --tier {tier}", cwd="/verif", shell=True, capture_output=True, text=True, timeout=6000)
             kinds = sorted({l.strip()[6:] for l in p.stdout.splitlines() if l.strip().startswith("kind:")})
